@@ -325,7 +325,7 @@ def stepDg6 (st : St) (chain6 : List Sys.Elem6) (bound oob src : String) (res : 
         brs ++ (if d.isEmpty then [] else [s!"DIVERGE dom[{",".intercalate d}] model={Plug.short (fmtOut6 m)}"]) ++ f12 ++ frt ++ f14 ++ f14s ++ f13
   | _ => ["DIVERGE drift unparsed-result"]
 
-def step (st : St) (op res : String) : St × List String :=
+def stepCore (st : St) (op res : String) : St × List String :=
   match words op with
   | ["sreset"] => ({}, ["br:sys.fresh-process"])
   | "sadd" :: proto :: name :: _k :: args =>
@@ -460,5 +460,15 @@ def step (st : St) (op res : String) : St × List String :=
       | some none, _ => (st, stepDg6 st st.chain6 bound oob src res)
       | _, _ => (st, stepDg6 st st.chain6 bound oob src res ++ ["DIVERGE drift unparsed-pd-view"])
   | _ => (st, ["DIVERGE drift unparsed-op"])
+
+/-- A trailing section ` ; nns i j …` of a datagram's result lists the positions in the chain of the handlers that returned
+a nil response WITHOUT stop (harness/sys.go wraps every handler of the real chain). C13's last sentence: built-in handlers
+only ever return a nil response together with stop. Judged on the observation alone; the rest of the line goes to the model. -/
+def step (st : St) (op res : String) : St × List String :=
+  match res.splitOn " ; nns " with
+  | [body, poss] =>
+    let (st', msgs) := stepCore st op body
+    (st', msgs ++ [s!"FAIL C13 the built-in handler(s) at position {poss} of the chain returned a nil response without stop; the next handler is handed nil ({Plug.short op})"])
+  | _ => stepCore st op res
 
 end Drv.SysE
